@@ -6,6 +6,7 @@ CONFIG = {
     "violation_kinds": ["C20:", "bytes", "delta", "denied-", "empty-range", "exclusion", "granted-", "inval-", "lock-outcome", "nfs-outcome", "not-a-table-op", "set-outcome", "test-", "valid-range", "wf"],
     "required_theorems": [
         "test_reports_real_conflict",
+        "round_granted_never_conflict",
         "test_misses_no_conflict",
         "test_iff_no_conflict",
         "test_iff_denied",
